@@ -1,6 +1,7 @@
 """C10 — every server reply is a valid SMTP reply whatever text is embedded in it."""
 import json, os
 import vlib, extract
+import session, smtpworld as W
 import importlib.util
 from vlib import hexs
 
@@ -79,6 +80,79 @@ def gen_cases(ctx, templates):
     return cases
 
 
+# ------------------------------------------------------------------------------------------------
+# configuration-supplied text as the head of a reply: filters/nomail.c through the whole server
+
+NOMAIL_HEAD = b'550 5.7.1 '      # the generic code cb_nomail() puts in front of a text without a code of its own
+
+
+def own_code(m):
+    """the documented rule of cb_nomail(): the text starts with "([45])[0-9][0-9] \\1\\.[0-9]\\.[0-9] " """
+    import re
+    return len(m) > 10 and re.match(rb'([45])[0-9][0-9] \1\.[0-9]\.[0-9] ', m) is not None
+
+
+def gen_nomail(ctx):
+    rng, quick = ctx.rng, ctx.quick()
+    heads = [b'550 5.7.1 ', b'450 4.2.1 ', b'599 5.0.0 ', b'550\t5.7.1 ', b'550 5.7.1\t', b'550 4.7.1 ', b'250 2.0.0 ', b'550 5.71 ', b'550 5.7.1', b'55 5.7.1 x ',
+             b'550-5.7.1 ', b'5x0 5.7.1 ', b'550 5,7.1 ', b'550 5.7.1\x0b', b'550\x0c5.7.1 ', b'', b'go away ', b'550 ']
+    lens = [0, 1, 5, 30, 200, 480, 495, 499, 500, 501, 502, 505, 506, 507, 510, 511, 512, 520, 600, 1000, 1011, 1500] if quick else \
+        [0, 1, 5, 30, 200] + list(range(470, 530)) + [600, 990, 1000, 1011, 1012, 1013, 1500, 2000, 4000]
+    modes = [('none',), ('every', 7), ('every', 100), ('cluster', 495, 512), ('random', 0.05)]
+    out = []
+    for h in heads:
+        for L in lens:
+            for mode in (modes if not quick else rng.sample(modes, 2)):
+                m = (h + gen_text(rng, L, mode)).rstrip(b' \t')
+                if m and not m.startswith(b'#'):
+                    out.append(m)
+    return out
+
+
+def run_nomail(ctx):
+    b = session.build_qsmtpd(ctx)
+    if not b:
+        return
+    texts = gen_nomail(ctx)
+    scs = []
+    for m in texts:
+        sc = W.base_scenario(domains={W.LOCAL: {'alice': None, 'alice/nomail': m + b'\n'}})
+        sc.items = [('W',), ('S', b'EHLO client.example\r\n'), ('W',), ('S', b'MAIL FROM:<s@remote.example>\r\n'), ('W',),
+                    ('S', b'RCPT TO:<alice@example.org>\r\n'), ('W',), ('S', b'QUIT\r\n'), ('W',)]
+        scs.append(sc)
+    rs = session.run_sessions(ctx, b, scs)
+    plines, meta, fails = [], [], []
+    for m, r in zip(texts, rs):
+        case = 'nomail ' + hexs(m)
+        if r.fault:
+            fails.append((case, 'session', 'fails memory-safety-or-crash: ' + r.fault[:200]))
+            continue
+        reply, on = b'', False
+        for kind, val in r.events:
+            if kind == 'R':
+                on = on or b'RCPT TO' in val
+                if on and b'QUIT' in val:
+                    break
+            elif kind == 'W' and on:
+                reply += val
+        lines = [l + b'\r\n' for l in reply.split(b'\r\n')[:-1]] if reply.endswith(b'\r\n') else [reply]
+        if own_code(m):
+            s0, rest = m[:10], m[10:]
+        else:
+            s0, rest = NOMAIL_HEAD, m
+        plines.append('chk_writen %s %s | %s' % (hexs(s0), hexs(rest), ' '.join(hexs(l) for l in lines) if reply else 'FAULT'))
+        meta.append((case, hexs(reply)[:600]))
+        ctx.count('nomail:' + ('own-code' if own_code(m) else 'generic-code'))
+    pouts = vlib.run_batch(ctx.driver, plines) if ctx.driver else []
+    for (case, obs), po in zip(meta, pouts):
+        if not po.startswith('holds'):
+            fails.append((case, obs, po))
+    ctx.cov['evaluations'] += len(texts)
+    ctx.cov['traces_validated_against_impl'] += len(texts)
+    ctx.cov['distinct_nontrivial'] += len(set(texts))
+    vlib.handle_results(ctx, 'nomail-reply', 'reply to RCPT TO built from control file text (filters/nomail.c) through the whole server', [], fails)
+
+
 def pred(case, impl):
     toks = case.split()
     if not impl.startswith('ok '):
@@ -112,11 +186,12 @@ def run(ctx):
             ml.append('multiline ' + ' '.join(parts))
         vlib.differential(ctx, 'net_write_multiline', h, ml,
                           corr_name='model QsmtpModel.Writen.netWriteMultiline vs lib/netio.c:net_write_multiline')
+    run_nomail(ctx)
     if not ctx.quick():
         vlib.leanchecker(ctx, ['QsmtpModel.Props.C10', 'QsmtpModel.Lemmas.Writen'])
     return vlib.finish(ctx, assumptions=[
         'embedded parts are C strings (no NUL) - true of every call site',
-        'first part within 3 < |s0| < 510: proved for every extracted template (templates_in_contract); the nomail text used as s0 (filters/nomail.c) is outside this provider',
+        'first part within 3 < |s0| < 510: proved for every extracted template (templates_in_contract); the only other provider, the 10-byte code of a nomail text (filters/nomail.c), is exercised through the whole server (job nomail-reply)',
         'netnwrite()/write(2) deliver what they are given (kernel)'])
 
 
